@@ -21,7 +21,7 @@ pub fn monitor_c02() -> Monitor {
 }
 
 fn points(ctx: &Ctx, rng: &mut Rng) -> Vec<(f64, f64)> {
-  let n = match (ctx.thorough, ctx.pass.as_str()) { (false, "release") => 6000, (false, _) => 1500, (true, "release") => 400000, (true, _) => 8000 };
+  let n = match (ctx.thorough, ctx.pass.as_str()) { (false, "release") => 48000, (false, _) => 3000, (true, "release") => 400000, (true, _) => 8000 };
   hostile_points(rng, n)
 }
 
